@@ -48,8 +48,8 @@ def mk_msgs():
     now = dt(2022, 1, 1)
     hacker = FaultLog(_Tcs())
 
-    def entry_msg(verb: str, idx: int, t: int):
-        pay = f"00{'00' if t % 2 else '40'}{idx:02X}B00400000000{hex_from_dts(ts(t))}FFFF70001283B3"
+    def entry_msg(verb: str, idx: int, t: int, dev_hex: str = "1283B3"):
+        pay = f"00{'00' if t % 2 else '40'}{idx:02X}B00400000000{hex_from_dts(ts(t))}FFFF7000{dev_hex}"
         if verb == " I":
             frame = f" I --- {CTL} --:------ {CTL} 0418 022 {pay}"
         else:
@@ -207,6 +207,25 @@ def run(ctx: Ctx) -> None:
             ctx.violation("invented-entry", "the view shows an entry that was never reported", {"history": evs, "map": mp}, "history")
         ctx.case(("hist", tuple(evs)), bool(mp), "history")
         hist_impl.append([mp, [(x, 0) for x in lg]])
+        # another controller's fault log in the same process (two systems on one gateway) has heard nothing: it shows nothing of this one's
+        other = FaultLog(_Tcs())
+        try:
+            leaked = {"faultlog": dict(other.faultlog), "latest_event": other.latest_event, "latest_fault": other.latest_fault, "active_faults": other.active_faults}
+        except Exception as err:  # noqa: BLE001
+            leaked = {"raises": repr(err)}
+        if any(leaked.values()):
+            ctx.violation("another-fault-log-shows-this-controllers-entries", "a second FaultLog object, which has processed no message, shows entries reported to the first",
+                          {"history": evs, "views_of_the_untouched_log": {k: str(v)[:200] for k, v in leaked.items() if v}}, "history")
+        if evs and evs[-1][0] == "E":          # ... and when it hears its own controller report an entry stamped like one of the first's, it shows ITS entry
+            t = evs[-1][2]
+            from ramses_rf.system.faultlog import FaultLogEntry  # noqa: PLC0415
+            m_other = entry_msg("RP", 0, t, dev_hex="1283B5")
+            if m_other is not None:
+                other.handle_msg(m_other)
+                e0 = other.faultlog.get(0)
+                if e0 is None or str(e0) != str(FaultLogEntry.from_msg(m_other)):
+                    ctx.violation("another-fault-log-shows-this-controllers-entries", "the second FaultLog shows the first controller's entry in place of its own (same timestamp)",
+                                  {"history": evs, "own_entry": str(m_other._pkt), "shown": str(e0)}, "history")
         hist_cases.append("[" + "; ".join(f"FEntry {e[1]} {e[2]}" if e[0] == "E" else f"FNull {e[1]}" for e in evs) + "]")
     for k in range(0, n2, 300):
         files[f"x2_{k // 300}"] = (PRELUDE + "Eval vm_compute in (map (fun evs => let s := run evs finit in [fl_map s; map (fun x => (x, 0)) (fl_log s)]) "
